@@ -8,3 +8,5 @@ import GontainerModel.Props.C07
 #print axioms GM.C07.reported_cycle_is_cycle
 #print axioms GM.C07.edges_exact
 #print axioms GM.C07.param_eval_terminates_partial
+#print axioms GM.C07.param_eval_terminates_acyclic
+#print axioms GM.C07.rank_le_nodes
